@@ -521,8 +521,37 @@ def r9_function_set_flag(repo: Repo, rep):
         rep.check(R, names == {"args"}, init.site(st), init.fq, "derived from residual_fn.args", f"derived from residual_fn.{sorted(names)}", f"flag from {sorted(names)}")
 
 
+def r10_periodic_sides(repo: Repo, rep):
+    R = rep.rule("R-C04-10", "PeriodicCondition samples its LEFT points on the interval's left end and its RIGHT points on the right end", floor=2,
+                 why="with the two boundary samplers exchanged u_left / x_left / f_left are the values at the right end: every residual that is not symmetric in the two sides changes")
+    ci = repo.cls("problem.conditions.condition.PeriodicCondition")
+    init = ci.methods.get("__init__")
+    if init is None:
+        raise AnalysisError("PeriodicCondition.__init__ vanished")
+    rep.saw(init)
+    seen = 0
+    for p in paths(init.node, expand_self=False):
+        if p.ret is RAISE:
+            continue
+        for side, other in (("left", "right"), ("right", "left")):
+            v = p.attrs.get(f"self.{side}_sampler")
+            if v is None:
+                continue
+            t = dump(v)
+            seen += 1
+            own, foreign = f"boundary_{side}" in t, f"boundary_{other}" in t
+            if own == foreign:
+                rep.undecided(R, init.site(), init.fq, f"self.{side}_sampler recognisable as a sampler on one end of the periodic interval", t[:100])
+            else:
+                rep.check(R, own, init.site(), init.fq, f"self.{side}_sampler samples periodic_interval.boundary_{side}", t[:100], f"{side}_sampler on boundary_{other}")
+        break
+    if seen < 2:
+        rep.undecided(R, init.site(), init.fq, "both side samplers assigned on the first path", f"{seen} found")
+
+
 def run(repo: Repo, rep):
     r9_function_set_flag(repo, rep)
+    r10_periodic_sides(repo, rep)
     from .generic import g_arg_constructor_parameters
     g_arg_constructor_parameters(repo, rep, lambda m: ".conditions." in m, floor=10,
                                  why="a condition that ignores a constructor argument (weight, norm, root, data functions, parameter) computes another loss than documented")
@@ -549,6 +578,11 @@ def run(repo: Repo, rep):
     r2_pairing(repo, rep)
     r5_accumulators(repo, rep)
     r6_value_free_control(repo, rep)
+    from .c03 import r3_tables, r8_batch_rank  # conditions hand (functions, points, components) coordinates to the operators: they must address components from the end
+    r3_tables(repo, rep)
+    r8_batch_rank(repo, rep)
+    from .c09 import r4_branch_cache  # "the model outputs at those rows": a DeepONet condition's branch features belong to the function set of that condition
+    r4_branch_cache(repo, rep)
 
 
 _C = "src/torchphysics/problem/conditions/condition.py"
